@@ -2,6 +2,7 @@ package checks
 
 import (
 	"fmt"
+	"go/constant"
 	"go/token"
 	"go/types"
 	"strings"
@@ -375,6 +376,205 @@ func runC17(c *core.Ctx) {
 		}
 	}
 	_ = types.Typ
+
+	// ---- hdr.quote: a sub-field value that contains a separator is quoted — the quoting character class of setField
+	// covers every separator its callers pass
+	allSeps := map[string]bool{}
+	for _, s := range seps {
+		for k := range s {
+			allSeps[strings.Trim(k, "\"")] = true
+		}
+	}
+	if sf := prog.SSAFunc("interpreter/variable", "setField"); sf != nil {
+		class := ""
+		note := func(pat string) {
+			if i := strings.Index(pat, "["); i >= 0 {
+				if j := strings.LastIndex(pat, "]"); j > i {
+					class += pat[i+1 : j]
+				}
+			}
+		}
+		for _, b := range sf.Blocks {
+			for _, in := range b.Instrs {
+				call, ok := in.(*ssa.Call)
+				if !ok {
+					continue
+				}
+				cal := call.Common().StaticCallee()
+				if cal == nil || cal.Pkg == nil || cal.Pkg.Pkg.Path() != "regexp" {
+					continue
+				}
+				if strings.HasPrefix(cal.Name(), "MustCompile") || cal.Name() == "Compile" || cal.Name() == "MatchString" && cal.Signature.Recv() == nil {
+					if k, ok := call.Common().Args[0].(*ssa.Const); ok && k.Value != nil {
+						note(constant.StringVal(k.Value))
+					}
+				}
+				if cal.Name() == "MatchString" && cal.Signature.Recv() != nil {
+					for x := range core.BackSlice(call.Common().Args[0]) {
+						if g, ok := x.(*ssa.Global); ok {
+							note(globalRegexpPattern(prog, g))
+						}
+					}
+				}
+			}
+		}
+		var missing []string
+		for sp := range allSeps {
+			if sp != "" && !strings.Contains(class, sp) {
+				missing = append(missing, sp)
+			}
+		}
+		sortStrings(missing)
+		switch {
+		case class == "":
+			c.Report("hdr.quote", "setField|class", sf.Pos(), "setField no longer quotes sub-field values by a character class: values containing the separator cannot be stored")
+		case len(missing) > 0:
+			c.Report("hdr.quote", "setField|separators", sf.Pos(), fmt.Sprintf("the characters that make setField quote a sub-field value (%q) do not include the separator %v its callers use: a value containing it is written bare and splits into several sub-fields", class, missing))
+		default:
+			c.Discharge("hdr.quote", "setField|separators", sf.Pos(), "the quoting class covers the separators "+strings.Join(keysOf(allSeps), " "))
+		}
+	} else {
+		c.MissingAnchor("hdr.quote", "interpreter/variable.setField")
+	}
+
+	// ---- hdr.ownstore: every request/response object owns its assigned-key set
+	nOwn := 0
+	for _, fn := range prog.ModuleFuncs("interpreter/http") {
+		for _, b := range fn.Blocks {
+			for _, in := range b.Instrs {
+				st, ok := in.(*ssa.Store)
+				if !ok {
+					continue
+				}
+				fa, ok := st.Addr.(*ssa.FieldAddr)
+				if !ok || core.FieldOf(fa) == nil || core.FieldOf(fa).Name() != "headerKeyStore" {
+					continue
+				}
+				nOwn++
+				key := fmt.Sprintf("%s|headerKeyStore#%d", core.FnName(fn), nOwn)
+				fresh := true
+				var walk func(v ssa.Value, d int)
+				walk = func(v ssa.Value, d int) {
+					if d > 4 {
+						fresh = false
+						return
+					}
+					switch t := v.(type) {
+					case *ssa.MakeMap:
+					case *ssa.ChangeType:
+						walk(t.X, d+1)
+					case *ssa.Phi:
+						for _, e := range t.Edges {
+							walk(e, d+1)
+						}
+					case *ssa.Call:
+						if cal := t.Common().StaticCallee(); cal != nil && (cal.Name() == "Clone" || cal.Name() == "clone" || cal.Name() == "copy") {
+							return
+						}
+						fresh = false
+					default:
+						fresh = false
+					}
+				}
+				walk(st.Val, 0)
+				if fresh {
+					c.Discharge("hdr.ownstore", key, in.Pos(), "a new (or copied) key set")
+				} else {
+					c.Report("hdr.ownstore", key, in.Pos(), core.FnName(fn)+" gives the new object the assigned-key set of another object instead of a set of its own: setting or unsetting a header on one of them changes whether the header reads as set on the other")
+				}
+			}
+		}
+	}
+	if nOwn < 2 {
+		c.MissingAnchor("hdr.ownstore", fmt.Sprintf("stores to headerKeyStore in interpreter/http (found %d)", nOwn))
+	}
+
+	// ---- hdr.verbatim: a whole-header `set` stores the value as written, cut at the first newline and nothing else
+	nVerb := 0
+	for _, fn := range vfuncs {
+		for _, b := range fn.Blocks {
+			for _, in := range b.Instrs {
+				_, _, name, ok := isNetHeaderCall(in, "Set", "Add")
+				if !ok {
+					continue
+				}
+				arg := in.(*ssa.Call).Common().Args[2]
+				// only values that come straight from a VCL value (not the sub-field composer)
+				fromValue, viaField := false, false
+				for x := range core.BackSlice(arg) {
+					if p, ok := x.(*ssa.Parameter); ok && core.NamedTypeName(p.Type()) == "Value" {
+						fromValue = true
+					}
+					if call, ok := x.(*ssa.Call); ok {
+						if call.Common().IsInvoke() && call.Common().Method.Name() == "String" && core.NamedTypeName(call.Common().Value.Type()) == "Value" {
+							fromValue = true
+						}
+						if cal := call.Common().StaticCallee(); cal != nil && (cal.Name() == "setField" || cal.Name() == "unsetField") {
+							viaField = true
+						}
+					}
+				}
+				if !fromValue || viaField {
+					continue
+				}
+				nVerb++
+				key := fmt.Sprintf("%s|Header.%s#%d", core.FnName(fn), name, nVerb)
+				if bad := stringTransforms(prog, arg, 0); bad != "" {
+					c.Report("hdr.verbatim", key, in.Pos(), fmt.Sprintf("%s stores a header value that went through %s: reading the header back does not return the value that was written (only a cut at the first newline is allowed)", core.FnName(fn), bad))
+				} else {
+					c.Discharge("hdr.verbatim", key, in.Pos(), "value.String(), cut at the first newline")
+				}
+			}
+		}
+	}
+	if nVerb < 2 {
+		c.MissingAnchor("hdr.verbatim", fmt.Sprintf("whole-header Set/Add of a VCL value (found %d)", nVerb))
+	}
+}
+
+// stringTransforms: the first string transformation other than strings.Cut(_, "\n") on the way to v; module helpers
+// are looked into.
+func stringTransforms(prog *core.Program, v ssa.Value, depth int) string {
+	if depth > 3 {
+		return ""
+	}
+	for x := range core.BackSlice(v) {
+		call, ok := x.(*ssa.Call)
+		if !ok {
+			continue
+		}
+		cal := call.Common().StaticCallee()
+		if cal == nil || cal.Pkg == nil {
+			continue
+		}
+		switch {
+		case cal.Pkg.Pkg.Path() == "strings":
+			if cal.Name() == "Cut" || cal.Name() == "SplitN" || cal.Name() == "Index" || cal.Name() == "IndexByte" {
+				if k, ok := call.Common().Args[1].(*ssa.Const); ok && k.Value != nil && strings.Trim(k.Value.ExactString(), "\"") == "\\n" {
+					continue
+				}
+			}
+			return "strings." + cal.Name()
+		case strings.HasPrefix(cal.Pkg.Pkg.Path(), core.ModPath) && cal.Blocks != nil && isStringResult(cal):
+			for _, rs := range core.ReturnSites(cal) {
+				for _, r := range rs.Results {
+					if bad := stringTransforms(prog, r, depth+1); bad != "" {
+						return bad + " (in " + cal.Name() + ")"
+					}
+				}
+			}
+		}
+	}
+	return ""
+}
+
+func isStringResult(fn *ssa.Function) bool {
+	rs := fn.Signature.Results()
+	if rs.Len() != 1 {
+		return false
+	}
+	b, ok := rs.At(0).Type().Underlying().(*types.Basic)
+	return ok && b.Info()&types.IsString != 0
 }
 
 func keysOf(m map[string]bool) []string {
